@@ -295,7 +295,7 @@ theorem append_survivor {f : Forest} {p c a : Nat} {ta tc : Str} (inv : f.Inv) (
     have hne : ¬ (some a = some c) := fun e => hac (Option.some.inj e)
     simp only [hsc, hlast, Bool.not_true, Bool.false_eq_true, if_false, beq_iff_eq, hne,
       old_noop_of_text inv norm hgc htt]
-    rw [Forest.addConsolidate_prev hc htc hta]
+    rw [Forest.addConsolidate_prev hc htc hta _ hac]
     rfl
   rw [hmodel]
   have := merge_into_effect (.text (ta ++ tc)) inv.nodup hga hgc (leaf_of_text inv.valid hga hkat)
@@ -322,7 +322,7 @@ theorem insertAfter_survivor {f : Forest} {r c : Nat} {tr tc : Str} (inv : f.Inv
     simp only [hsc, hsr, Bool.not_true, Bool.false_eq_true, if_false, beq_iff_eq, hsame,
       old_noop_of_text inv norm hgc htt, Bool.false_and]
     unfold insertAfterTail
-    rw [Forest.addConsolidate_prev hc htc htr]
+    rw [Forest.addConsolidate_prev hc htc htr _ hrc]
     rfl
   rw [hmodel]
   have := merge_into_effect (.text (tr ++ tc)) inv.nodup hgr hgc (leaf_of_text inv.valid hgr hkrt)
@@ -347,7 +347,7 @@ theorem prepend_survivor {f : Forest} {p c b : Nat} {tb tc : Str} (inv : f.Inv) 
     simp only [hsc, hfirst, Bool.not_true, Bool.false_eq_true, if_false, beq_iff_eq, hne,
       old_noop_of_text inv norm hgc htt]
     unfold prependTail
-    rw [hfirst, Forest.addConsolidate_next hc htc (fun a h => by cases h) htb]
+    rw [hfirst, Forest.addConsolidate_next hc htc (fun a h => by cases h) htb hbc]
     rfl
   rw [hmodel]
   have := merge_into_effect (.text (tc ++ tb)) inv.nodup hgb hgc (leaf_of_text inv.valid hgb hkbt)
@@ -376,7 +376,7 @@ theorem insertBefore_survivor {f : Forest} {r c : Nat} {tr tc : Str} (inv : f.In
     simp only [hsc, hsr, Bool.not_true, Bool.false_eq_true, if_false, beq_iff_eq, hsame,
       old_noop_of_text inv norm hgc htt]
     unfold insertBeforeTail
-    rw [Forest.addConsolidate_next hc htc hprev htr]
+    rw [Forest.addConsolidate_next hc htc hprev htr hrc]
     rfl
   rw [hmodel]
   have := merge_into_effect (.text (tc ++ tr)) inv.nodup hgr hgc (leaf_of_text inv.valid hgr hkrt)
